@@ -49,6 +49,7 @@ def _new_item():
 
 _SYS = None          # set before the worker pool is forked
 _SEED = 0
+_CHECK_ONLY = False  # final level of a depth-bounded run: evaluate state invariants, do not expand
 
 
 def build(system, hist):
@@ -108,6 +109,8 @@ def _expand_chunk(entries):
                         e[0] += 1
                 continue          # a violating state is not expanded
             w0 = build(system, hist)      # the check may have touched library globals
+        if _CHECK_ONLY:
+            continue
         ops = list(system.ops(w0))
         if ops and _SEED:
             k = _SEED % len(ops)
@@ -150,11 +153,19 @@ class Result:
     pass
 
 
-def explore(system, *, seed=0, workers=None, max_states=None, time_cap=None, log=None, collect=False):
-    """Run the BFS to fixpoint (or to a cap).  Returns a Result with measured counts."""
-    global _SYS, _SEED
+def explore(system, *, seed=0, workers=None, max_states=None, time_cap=None, log=None, collect=False,
+            max_depth=None):
+    """
+    Run the BFS to fixpoint (or to a cap).  Returns a Result with measured counts.
+    max_depth: explore every history of at most that many ops from the initial state (used for the
+    'pumped' pools, whose initial state is already large); states at that depth still get their
+    state invariant evaluated, but are not expanded.  The result is then exhaustive up to the depth,
+    not a fixpoint.
+    """
+    global _SYS, _SEED, _CHECK_ONLY
     _SYS = system
     _SEED = seed
+    _CHECK_ONLY = False
     workers = workers or int(os.environ.get("VERIF_WORKERS", os.cpu_count() or 1))
     if time_cap is None and os.environ.get("EGMC_POOL_CAP_S"):
         time_cap = float(os.environ["EGMC_POOL_CAP_S"])      # per-pool budget (set for the thorough tier)
@@ -183,7 +194,17 @@ def explore(system, *, seed=0, workers=None, max_states=None, time_cap=None, log
     pool = None
     intern = {}
     try:
+        res.fixpoint = True
         while frontier:
+            if max_depth is not None and res.depth >= max_depth:
+                res.fixpoint = False
+                if getattr(system, "state_check", None) is None:
+                    break
+                _CHECK_ONLY = True       # one more pass: state invariants of the last level only
+                if pool is not None:     # workers must see the flag: fork a fresh pool
+                    pool.terminate()
+                    pool.join()
+                    pool = None
             if time_cap is not None and time.time() - t0 > time_cap:
                 res.exhaustive = False
                 res.cap = f"time cap {time_cap}s hit with {len(frontier)} states of depth {res.depth} unexpanded"
@@ -233,7 +254,7 @@ def explore(system, *, seed=0, workers=None, max_states=None, time_cap=None, log
                         nxt.append((h, d))
                         if collect:
                             res.all_histories.append(h)
-            if not res.exhaustive:
+            if not res.exhaustive or _CHECK_ONLY:
                 break
             # deterministic order of the next level irrespective of worker scheduling
             nxt.sort(key=lambda e: e[1])
@@ -248,7 +269,9 @@ def explore(system, *, seed=0, workers=None, max_states=None, time_cap=None, log
         if pool is not None:
             pool.terminate()
             pool.join()
+    _CHECK_ONLY = False
     res.states = len(seen)
+    res.max_depth_bound = max_depth
     res.wall = time.time() - t0
     return res
 
